@@ -211,6 +211,12 @@ func c11Run(c *Ctx, raw json.RawMessage) {
 			if !o.IsErr && o.Out != decodeChars(ex.Base) {
 				c.Fail("wrong-element:"+sigTail, fmt.Sprintf("%s: navigation cannot be completed, yet it rendered %q", src, o.Out), cas)
 			}
+		case ex.K == "outorerrorempty":
+			if !o.IsErr && o.Out != decodeChars(ex.Base) {
+				if ok, why := matchPieces(o.Out, ex.Pieces); !ok {
+					c.Fail("wrong-value:"+sigTail, fmt.Sprintf("%s: Go navigation yields %q (an error or empty output would do as well), plush rendered %q (%s)", src, expectedText(ex.Pieces), o.Out, why), cas)
+				}
+			}
 		case ex.K == "out":
 			if o.IsErr {
 				c.Fail("navigation-fails:"+sigTail, fmt.Sprintf("%s: Go navigation yields %q, plush fails: %s", src, expectedText(ex.Pieces), trunc(o.Err, 140)), cas)
